@@ -128,6 +128,19 @@ Theorem C19_import_binding : forall real e specs priv emb t,
   forall i, In i (snd (find_interface e specs priv emb t)) -> bound_name real i = i_alias i.
 Proof. exact import_binding. Qed.
 
+(* Embedding at most two levels deep: every method FindInterface returns is the rendering of the
+   declaration Go selects for that name — the unique shallowest declaration (find_decl), not some
+   other method of the same name further down — so its signature denotes the signature of the
+   method the original type really has.  (C19_embedded_fits alone, "the name is in Go's method
+   set", does not exclude a same-named method with another signature.) *)
+Theorem C19_embedded_selects : forall e local priv emb st t rs st',
+  height t <= 2 -> wf_tree t ->
+  to_iface e priv emb st t = (rs, st') ->
+  Forall (fun m => exists m0, find_decl t (rm_name m) = Some m0 /\ rm_name m = m_name m0 /\
+            (wf_ty (e_self e) local (meth_ty m0) -> alias_injective (active st') ->
+             denote (e_self e) local (active st') (rmeth_expr m) = Some (erase (meth_ty m0)))) rs.
+Proof. exact interface_selects. Qed.
+
 (* ================================================================== non-vacuity *)
 Example C19_example_names :
   final_names [PI "arg0" false false; PI "_" false false] [] = ["arg0"; "arg1"] /\
@@ -175,6 +188,27 @@ Proof.
                      (PI "" false false), (TNamed (Some ("ex.com/sib/ren", "ren")) "R" []). reflexivity.
 Qed.
 
+(* the bound of C19_embedded_selects is needed: three levels deep the merge can take another
+   declaration than Go (G{A{Foo()}; F{X{Foo(int)}}} drops Foo from G's interface, H{Y{Z{Foo(string)}}}
+   then provides it alone, Go promotes A.Foo).  Outside the property's quantifier; the real code
+   behaves the same (design_notes/C19.md). *)
+Definition ex_p (n : string) : ty := TNamed (Some ("ex.com/p", "p")) n [].
+Definition ex_foo (ts : list string) : meth :=
+  M "Foo" (map (fun s => (PI "" false false, TBasic s)) ts) false [].
+Definition ex_deep : tree :=
+  Tr (ex_p "S") [M "Own" [] false []]
+     [Tr (ex_p "G") [] [Tr (ex_p "A") [ex_foo []] []; Tr (ex_p "F") [] [Tr (ex_p "X") [ex_foo ["int"]] []]];
+      Tr (ex_p "H") [] [Tr (ex_p "Y") [] [Tr (ex_p "Z") [ex_foo ["string"]] []]]].
+Example C19_example_selects_needs_two_levels :
+  height ex_deep = 3 /\ wf_tree ex_deep /\ go_ms ex_deep "Foo" = true /\
+  find_decl ex_deep "Foo" = Some (ex_foo []) /\
+  map signature (fst (to_iface ex_env true true [] ex_deep)) = ["Own() "; "Foo(arg0 string) "].
+Proof.
+  split; [reflexivity|]. split.
+  - repeat (constructor; simpl; try tauto); intuition discriminate.
+  - vm_compute. auto.
+Qed.
+
 Definition ex_real (p : string) : string :=
   if String.eqb p "ex.com/sib/v2" then "realname" else if String.eqb p "context" then "context"
   else if String.eqb p "ex.com/sib/ren" then "ren" else if String.eqb p "ex.com/third" then "third"
@@ -215,4 +249,5 @@ Print Assumptions C19_embedded_orig_refuted.
 Print Assumptions C19_typeref.
 Print Assumptions C19_imports.
 Print Assumptions C19_interface.
+Print Assumptions C19_embedded_selects.
 Print Assumptions C19_import_binding.
